@@ -17,7 +17,8 @@ func init() {
 			"R2 predicate — checkGeneratedCode returns true exactly under ast.IsGenerated(f) or when some comment of f.Doc (the package comment, not f.Comments) contains the constant \"@generated\" (strings.Contains), and false otherwise, including f.Doc == nil; " +
 			"R3 precondition of ast.IsGenerated — the parser.ParseFile mode used for targets has the ParseComments bit, without which the marker is invisible. " +
 			"NOT decided: ast.IsGenerated's own regular expression (standard library, matches the statement's wording)." +
-			" R5 a skipped file leaves nothing behind (cross-file state).",
+			" R5 a skipped file leaves nothing behind (cross-file state)." +
+			" R6 processing a file leaves nothing in the compiled patch (the read-only rule, atomic writes included): which files are processed before a file differs with the flag.",
 		Trusted:     append([]string{"go/ast.IsGenerated implements the '// Code generated ... DO NOT EDIT.' convention for comments before the package clause"}, commonTrusted...),
 		Assumptions: commonAssumptions,
 	})
@@ -37,6 +38,10 @@ func runC18(r *an.Run) {
 		// created outside the per-file loop is written or handed to a call inside it
 		crossFileState(r, m, "R5-a-skipped-file-leaves-nothing-behind")
 	}
+	// … and the other way round: which files were processed before this one differs with the flag (a
+	// generated file is processed without it and skipped with it), so a file without a marker is processed
+	// "exactly as without the flag" only if processing a file leaves nothing behind in the compiled patch
+	compiledProgramReadOnly(r, "R6-processing-a-file-leaves-nothing-in-the-compiled-patch")
 }
 
 func c18Gating(r *an.Run, m *runModel) {
@@ -212,7 +217,7 @@ func c18Predicate(r *an.Run) {
 		r.Check(ok && needle == "@generated", short(f)+"|needle", inner[0].Pos(), "the marker searched for is exactly \"@generated\" (got %q)", needle)
 		hay := an.Path(inner[0].Call.Args[0])
 		list := an.Path(cf.Call.Args[0])
-		r.Check(hay == pred.Params[0].Name()+".Text" && list == "f.Doc.List", short(f)+"|haystack", inner[0].Pos(), "the marker is searched in the text of the package comment f.Doc.List[i].Text (got %q of %q) — not in f.Comments, so markers after the package clause do not count", hay, list)
+		r.Check(hay == an.ParamName(pred.Params[0])+".Text" && list == "f.Doc.List", short(f)+"|haystack", inner[0].Pos(), "the marker is searched in the text of the package comment f.Doc.List[i].Text (got %q of %q) — not in f.Comments, so markers after the package clause do not count", hay, list)
 		whole := true
 		for _, ret := range an.Returns(pred) {
 			if ret.Results[0] != ssa.Value(inner[0]) {
